@@ -64,6 +64,7 @@ class Oracle:
         for i, a in enumerate(w.args):
             r[f"arg{i}"] = a
         r.update(class_defaults(ctx.env))
+        r.update({"env:" + k: v for k, v in G.env_roots(ctx.env).items()})
         return r
 
     def pre(self, ctx):
@@ -84,7 +85,8 @@ class Oracle:
             changed = ["<aliasing between roots>"]
             ctx.store["each"]["<aliasing between roots>"] = None
         what = ("receiver" if any(c.startswith("obj") for c in changed) else "argument" if any(c.startswith("arg") for c in changed)
-                else "aliasing" if changed == ["<aliasing between roots>"] else "class_default")
+                else "aliasing" if changed == ["<aliasing between roots>"]
+                else "resolved_argument" if any(c.startswith("env:") for c in changed) else "class_default")
         bef = ctx.store["each"]
         aft = {n: snap.canon([o]) for n, o in ctx.store["roots"].items()}
         return [explore.violation(PROP, ctx.sig("changed_on_raise", what=what, raised=out.family()),
